@@ -65,14 +65,17 @@ def _jobs(tier):
     jobs = []
     storages = ["direct", "ref", "any"]
 
-    def add(cfg, storage, alloc, shape, bound, parts=1):
+    def add(cfg, storage, alloc, shape, bound, parts=1, mutex=None):
         for k in range(parts):
             a = f"--storage {storage} --alloc {alloc} --shape {shape}"
+            if mutex:
+                a += f" --mutex {mutex}"
             if bound is not None:
                 a += f" --bound {bound}"
             if parts > 1:
                 a += f" --part {k}/{parts}"
-            jobs.append(J(H, cfg, a, name=f"sched/{storage}/{alloc}/{shape}/b{'inf' if bound == 1000 else bound}[{cfg}]"
+            jobs.append(J(H, cfg, a, name=f"sched/{storage}/{alloc}{'+' + mutex + '-mutex' if mutex else ''}/{shape}/"
+                                           f"b{'inf' if bound == 1000 else bound}[{cfg}]"
                                            + (f" part {k}/{parts}" if parts > 1 else "")))
 
     INF = 1000  # no preemption bound: the enumeration ends only when no alternative is left
@@ -88,6 +91,17 @@ def _jobs(tier):
             add("dbg", s, "empty", "3x1", INF, parts=2)      # empty class with is_stateful = true_type: locked like any stateful one
             add("dbg", s, "empty", "2x2", INF)
             add("dbg", s, "empty", "2x1", INF)
+        # composed allocators: tracked_allocator<stateful tracker, stateless allocator> and <empty tracker, stateful allocator>
+        add("dbg", "direct", "tracked-sf", "3x1", INF, parts=3)
+        for s in storages:
+            for al in ("tracked-sf", "tracked-es"):
+                add("dbg", s, al, "2x2", INF)
+                add("dbg", s, al, "2x1", INF)
+        # second Mutex type: an empty class locking a process-wide mutex
+        add("dbg", "direct", "stateful", "3x1", INF, parts=2, mutex="empty")
+        for s in storages:
+            add("dbg", s, "stateful", "2x2", INF, mutex="empty")
+            add("dbg", s, "stateful", "2x1", INF, mutex="empty")
         for s in ("direct", "ref"):
             add("dbg", s, "stateless", "3x1", INF)
             add("dbg", s, "stateless", "2x2", INF)
@@ -111,6 +125,18 @@ def _jobs(tier):
         add("rel", "any", "stateful", "3x2", 3, parts=8)
         for s in storages:
             add("dbg", s, "empty", "3x2", 3, parts=4)
+        for s in storages:
+            for al in ("tracked-sf", "tracked-es"):
+                add("dbg", s, al, "3x1", INF, parts=3)
+                add("dbg", s, al, "2x3", INF)
+                add("dbg", s, al, "2x2", INF)
+                add("dbg", s, al, "2x1", INF)
+            add("dbg", s, "stateful", "3x1", INF, parts=2, mutex="empty")
+            add("dbg", s, "stateful", "2x3", INF, mutex="empty")
+            add("dbg", s, "stateful", "2x2", INF, mutex="empty")
+            add("dbg", s, "stateful", "2x1", INF, mutex="empty")
+        add("dbg", "direct", "tracked-sf", "3x2", 3, parts=4)
+        add("dbg", "direct", "stateful", "3x2", 3, parts=4, mutex="empty")
     jobs.append(J(H, "dbg", "--selftest", name="selftest[dbg]"))
     # stateless low-level allocators: shared leak balance under all schedules (needs a configuration with leak checking)
     for cfg in (("dbg",) if tier == "quick" else ("dbg", "rwd")):
@@ -288,7 +314,10 @@ def check(prop, tier, only):
                        "happens with the instrumented mutex owned by the calling thread, never two threads inside, final allocator "
                        "state == number of calls (split read-modify-write: a missing lock is a lost update), all returned "
                        "addresses distinct, mutex free at the end with #lock == #unlock and no unlock by a non-owner, no deadlock; "
-                       "stateless allocator: no mutex object and no lock call at all (direct and reference storage). alloc 'empty' = an "
+                       "stateless allocator: no mutex object and no lock call at all (direct and reference storage). alloc 'tracked-sf' / "
+                       "'tracked-es' = tracked_allocator<tracker with state, stateless allocator> / <empty tracker, stateful allocator>: "
+                       "tracker callbacks AND inner allocator members are owner-checked, the part with state does the split "
+                       "read-modify-write. '+empty-mutex-type' = Mutex is an empty class locking a process-wide mutex. alloc 'empty' = an "
                        "empty class declaring is_stateful = true_type (state global): judged exactly like 'stateful'. shape 'll' = "
                        "heap/malloc/new/virtual_memory allocator used concurrently without a lock, scheduling point before every "
                        "atomic operation of their library TUs (atomic shim): the shared leak balance must return to its start "
